@@ -3,9 +3,8 @@
 //!
 //! T lines tie the Lean model (lean/EdpVerif/Impl/Elixir.lean) to the real code, P lines evaluate the Elixir-side
 //! Spec (lean/EdpVerif/Spec/Elixir.lean) on the implementation's answers, X lines are the property itself
-//! (round trips, nothing fabricated) checked on the implementation.  Failures that are one of the defects
-//! described in notes/C20.md carry a `kf-c20-…` class chosen by a predicate on the *input* (the trigger of that
-//! defect); everything else fails under a plain `c20-…` class.
+//! (round trips, nothing fabricated) checked on the implementation.  The inputs that used to fail before the
+//! fixes recorded in notes/C20-fixes/ are still replayed, as ordinary checks under the default classes.
 use crate::canon::{hex, hexarg, term_text};
 use crate::rng::Rng;
 use crate::Ctx;
@@ -25,10 +24,6 @@ const MAX: i64 = i64::MAX;
 
 // ------------------------------------------------------------------------------------------------ ranges
 
-fn in_i64(x: i128) -> bool {
-    x >= MIN as i128 && x <= MAX as i128
-}
-
 fn out_usize(r: std::thread::Result<usize>) -> String {
     match r {
         Ok(n) => n.to_string(),
@@ -36,50 +31,10 @@ fn out_usize(r: std::thread::Result<usize>) -> String {
     }
 }
 
-/// the arithmetic of `len()` leaves i64 (range.rs:82-84)
-fn len_trigger(f: i64, l: i64, s: i64, empty: bool) -> bool {
-    if empty {
-        return false;
-    }
-    let d = l as i128 - f as i128;
-    !in_i64(d) || d == MIN as i128 || s == MIN || d.abs() / (s as i128).abs() + 1 > MAX as i128
-}
-
-/// the arithmetic of `contains(v)` leaves i64 (range.rs:94/96)
-fn contains_trigger(f: i64, l: i64, s: i64, v: i64, empty: bool) -> bool {
-    if empty {
-        return false;
-    }
-    if s > 0 {
-        v >= f && v <= l && !in_i64(v as i128 - f as i128)
-    } else {
-        v <= f && v >= l && (!in_i64(f as i128 - v as i128) || s == MIN)
-    }
-}
-
-/// the arithmetic of `size_hint()` on a fresh iterator leaves i64 (range.rs:206/211)
-fn hint_trigger(f: i64, l: i64, s: i64, empty: bool) -> bool {
-    if empty {
-        return false;
-    }
-    if s > 0 {
-        let d = l as i128 - f as i128;
-        !in_i64(d) || d / s as i128 + 1 > MAX as i128
-    } else {
-        let d = f as i128 - l as i128;
-        !in_i64(d) || s == MIN || d / -(s as i128) + 1 > MAX as i128
-    }
-}
-
-/// `saturating_add` lands on a bound that equals `last` although the step does not reach it (range.rs:181/191)
-fn iter_trigger(f: i64, l: i64, s: i64, empty: bool) -> bool {
-    if empty {
-        return false;
-    }
-    if s > 0 {
-        l == MAX && (l as i128 - f as i128) % (s as i128) != 0
-    } else {
-        l == MIN && (f as i128 - l as i128) % -(s as i128) != 0
+fn out_hint(r: &std::thread::Result<(usize, Option<usize>)>) -> String {
+    match r {
+        Ok((lo, hi)) => format!("{}/{}", lo, hi.map(|n| n.to_string()).unwrap_or_else(|| "none".to_string())),
+        Err(_) => "panic".to_string(),
     }
 }
 
@@ -107,7 +62,8 @@ fn range_case(ctx: &mut Ctx, f: i64, l: i64, s: i64, v: i64, k: usize, all_v: Op
     }
     let sh2 = catch_unwind(AssertUnwindSafe(|| it.size_hint()));
     if let Ok((lo, hi)) = &sh {
-        if Some(*lo) != *hi {
+        // exact, or "more than usize::MAX"
+        if Some(*lo) != *hi && !(*lo == usize::MAX && hi.is_none()) {
             ctx.fail("c20-range-sizehint-bounds-differ", &format!("range={},{},{} hint={:?}", f, l, s, sh));
         }
     }
@@ -123,8 +79,8 @@ fn range_case(ctx: &mut Ctx, f: i64, l: i64, s: i64, v: i64, k: usize, all_v: Op
         Err(_) => "panic",
     };
     let len_text = out_usize(len);
-    let sh_text = out_usize(sh.map(|x| x.0));
-    let sh2_text = out_usize(sh2.map(|x| x.0));
+    let sh_text = out_hint(&sh);
+    let sh2_text = out_hint(&sh2);
     ctx.tie(
         "range",
         &format!("c20range {} {} {} {} {}", f, l, s, v, k),
@@ -141,14 +97,10 @@ fn range_case(ctx: &mut Ctx, f: i64, l: i64, s: i64, v: i64, k: usize, all_v: Op
         ctx.count("range_sizehint_panics");
     }
     // the Elixir-side oracle on every answer
-    let lt = len_trigger(f, l, s, empty);
-    let ct = contains_trigger(f, l, s, v, empty);
-    let ht = hint_trigger(f, l, s, empty);
-    let itg = iter_trigger(f, l, s, empty);
-    ctx.prop(if lt { "kf-c20-range-len-overflow" } else { "gen" }, &format!("c20rlen {} {} {} {}", f, l, s, len_text), "ok");
-    ctx.prop(if ht { "kf-c20-range-sizehint-overflow" } else { "gen" }, &format!("c20rhint {} {} {} {}", f, l, s, sh_text), "ok");
-    ctx.prop(if ct { "kf-c20-range-contains-overflow" } else { "gen" }, &format!("c20rcont {} {} {} {} {}", f, l, s, v, c_text), "ok");
-    ctx.prop(if itg { "kf-c20-range-iter-saturates" } else { "gen" }, &format!("c20riter {} {} {} {} {}", f, l, s, k, it_text), "ok");
+    ctx.prop("gen", &format!("c20rlen {} {} {} {}", f, l, s, len_text), "ok");
+    ctx.prop("gen", &format!("c20rhint {} {} {} {}", f, l, s, sh_text), "ok");
+    ctx.prop("gen", &format!("c20rcont {} {} {} {} {}", f, l, s, v, c_text), "ok");
+    ctx.prop("gen", &format!("c20riter {} {} {} {} {}", f, l, s, k, it_text), "ok");
     if let Some((lo, hi)) = all_v {
         for w in lo..=hi {
             let cw = match catch_unwind(|| r.contains(w)) {
@@ -156,8 +108,7 @@ fn range_case(ctx: &mut Ctx, f: i64, l: i64, s: i64, v: i64, k: usize, all_v: Op
                 Ok(false) => "0",
                 Err(_) => "panic",
             };
-            let t = contains_trigger(f, l, s, w, empty);
-            ctx.prop(if t { "kf-c20-range-contains-overflow" } else { "gen" }, &format!("c20rcont {} {} {} {} {}", f, l, s, w, cw), "ok");
+            ctx.prop("gen", &format!("c20rcont {} {} {} {} {}", f, l, s, w, cw), "ok");
         }
     }
     // the property on the implementation alone: what the iterator yields is contained, and is as many as `len` says
@@ -165,27 +116,16 @@ fn range_case(ctx: &mut Ctx, f: i64, l: i64, s: i64, v: i64, k: usize, all_v: Op
         match catch_unwind(|| r.contains(*x)) {
             Ok(true) => {}
             other => {
-                let class = if itg {
-                    "kf-c20-range-iter-saturates"
-                } else if contains_trigger(f, l, s, *x, empty) {
-                    "kf-c20-range-contains-overflow"
-                } else {
-                    "c20-range-yielded-not-contained"
-                };
-                ctx.fail(class, &format!("range={},{},{} yielded={} contains={:?}", f, l, s, x, other.ok()));
+                ctx.fail("c20-range-yielded-not-contained", &format!("range={},{},{} yielded={} contains={:?}", f, l, s, x, other.ok()));
                 break;
             }
         }
     }
     if ended && len_text != xs.len().to_string() {
-        let class = if itg {
-            "kf-c20-range-iter-saturates"
-        } else if lt {
-            "kf-c20-range-len-overflow"
-        } else {
-            "c20-range-len-differs-from-iteration"
-        };
-        ctx.fail(class, &format!("range={},{},{} len={} iterated={}", f, l, s, len_text, xs.len()));
+        ctx.fail("c20-range-len-differs-from-iteration", &format!("range={},{},{} len={} iterated={}", f, l, s, len_text, xs.len()));
+    }
+    if ended && sh_text != format!("{}/{}", xs.len(), xs.len()) {
+        ctx.fail("c20-range-sizehint-differs-from-iteration", &format!("range={},{},{} size_hint={} iterated={}", f, l, s, sh_text, xs.len()));
     }
 }
 
@@ -376,10 +316,6 @@ fn wrapper_case<W: PartialEq + std::fmt::Debug>(
     }
 }
 
-fn i32_fits(vals: &[i64]) -> bool {
-    vals.iter().all(|v| *v >= i32::MIN as i64 && *v <= i32::MAX as i64)
-}
-
 /// `from_term` on a term that did not come from `to_term`; when it answers, the integer fields of the answer must be
 /// the integers of the term (nothing fabricated by a truncating cast).
 fn hostile_case<W>(
@@ -417,7 +353,7 @@ fn hostile_case<W>(
                 };
                 if !same {
                     ctx.fail(
-                        "kf-c20-from-term-truncates",
+                        "c20-from-term-fabricates",
                         &format!("{} term={} field={} in-term={} fabricated={}", kind, tt, term_text(k), m.get(k).map(term_text).unwrap_or_default(), term_text(v)),
                     );
                     break;
@@ -590,11 +526,10 @@ fn wrappers(ctx: &mut Ctx) {
     }
     for (f, l, s) in triples {
         let x = ElixirRange::new(f, l, s);
-        let fits = i32_fits(&[f, l, s]);
         wrapper_case(
             ctx, "range", &format!("range {} {} {}", f, l, s), &x,
             &|x| (*x).into(), &ElixirRange::from_term, &show_range, &|x| Some(*x),
-            None, if fits { None } else { Some("kf-c20-wire-bigint-field") },
+            None, None,
         );
         let t: OwnedTerm = x.into();
         let h = mutate(&mut ctx.rng, &t);
@@ -618,17 +553,16 @@ fn wrappers(ctx: &mut Ctx) {
             ctx, "date", &format!("date {} {} {}", d.year, d.month, d.day), &d,
             &|x| (*x).into(), &ElixirDate::from_term, &show_date, &|x| Some(*x), None, None,
         );
-        let us_fits = |v: u32| v <= i32::MAX as u32;
         wrapper_case(
             ctx, "time", &format!("time {} {} {} {} {}", tm.hour, tm.minute, tm.second, tm.microsecond_value, tm.microsecond_precision), &tm,
             &|x| (*x).into(), &ElixirTime::from_term, &show_time, &|x| Some(*x),
-            None, if us_fits(tm.microsecond_value) { None } else { Some("kf-c20-wire-bigint-field") },
+            None, None,
         );
         wrapper_case(
             ctx, "naive",
             &format!("naive {} {} {} {} {} {} {} {}", nv.year, nv.month, nv.day, nv.hour, nv.minute, nv.second, nv.microsecond_value, nv.microsecond_precision),
             &nv, &|x| (*x).into(), &ElixirNaiveDateTime::from_term, &show_naive, &|x| Some(*x),
-            None, if us_fits(nv.microsecond_value) { None } else { Some("kf-c20-wire-bigint-field") },
+            None, None,
         );
         wrapper_case(
             ctx, "datetime",
@@ -638,7 +572,7 @@ fn wrappers(ctx: &mut Ctx) {
                 hexarg(dt.time_zone.as_bytes()), hexarg(dt.zone_abbr.as_bytes()), dt.utc_offset, dt.std_offset
             ),
             &dt, &|x| x.clone().into(), &ElixirDateTime::from_term, &show_dt, &|x| Some(x.clone()),
-            None, if us_fits(dt.microsecond_value) { None } else { Some("kf-c20-wire-bigint-field") },
+            None, None,
         );
         // hostile variants: month 300, day -1, microsecond 2^33, wrong types, missing keys, foreign struct, …
         let reps = if i < 4 { 6 } else { 2 };
@@ -754,29 +688,39 @@ fn wrappers(ctx: &mut Ctx) {
         let function = ctx.rng.pick(&["bar", "nil", "", "baz!"]).to_string();
         let reason = if ctx.rng.chance(1, 2) { Some(ctx.rng.pick(STRS).to_string()) } else { None };
         let ue = UndefinedFunctionError { module: module.clone(), function: function.clone(), arity: gen_u8(&mut ctx.rng), reason };
-        let prefixed = module.starts_with("Elixir.");
+        // the constructors accept either spelling of the module and store it without the prefix
+        {
+            let made = match &ue.reason {
+                Some(r) => UndefinedFunctionError::with_reason(module.clone(), function.clone(), ue.arity, r.clone()),
+                None => UndefinedFunctionError::new(module.clone(), function.clone(), ue.arity),
+            };
+            ctx.tie(
+                "wrap",
+                &format!("c20new undef {} {} {} {}", hexarg(module.as_bytes()), hexarg(function.as_bytes()), ue.arity, opt_hex(&ue.reason)),
+                &show_undef(&made),
+            );
+            if UndefinedFunctionError::from_term(&made.to_term()).as_ref() != Some(&made) {
+                ctx.fail("c20-roundtrip-memory", &format!("undef constructed={:?}", made));
+            }
+            let made = FunctionClauseError::new(module.clone(), function.clone(), ue.arity, a.clone());
+            ctx.tie(
+                "wrap",
+                &format!("c20new fncl {} {} {} {}", hexarg(module.as_bytes()), hexarg(function.as_bytes()), ue.arity, term_text(&a)),
+                &show_fncl(&made),
+            );
+        }
         wrapper_case(
             ctx, "undef", &format!("undef {} {} {} {}", hexarg(ue.module.as_bytes()), hexarg(ue.function.as_bytes()), ue.arity, opt_hex(&ue.reason)), &ue,
             &|x: &UndefinedFunctionError| x.to_term(), &UndefinedFunctionError::from_term, &show_undef, &|x| Some(x.clone()),
-            if prefixed { Some("kf-c20-exception-module-prefix") } else { None },
-            if prefixed { Some("kf-c20-exception-module-prefix") } else { None },
+            None, None,
         );
         let fm = if ctx.rng.chance(3, 4) { Some(ctx.rng.pick(&mods).to_string()) } else { None };
-        let ff = if ctx.rng.chance(3, 4) { Some(ctx.rng.pick(&["bar", "nil", "baz!"]).to_string()) } else { None };
+        // a function called `nil` is left out for the same reason as `Some(nil)` args below
+        let ff = if ctx.rng.chance(3, 4) { Some(ctx.rng.pick(&["bar", "", "baz!"]).to_string()) } else { None };
         let fa = if ctx.rng.chance(3, 4) { Some(gen_u8(&mut ctx.rng)) } else { None };
         // `Some(nil)` is left out: the atom `nil` is how an absent `args` is written, so the two cannot be told apart
         let fg = if ctx.rng.chance(3, 4) { Some(if ctx.rng.chance(1, 8) { OwnedTerm::List(vec![]) } else { OwnedTerm::List(vec![a.clone(), b.clone()]) }) } else { None };
         let fe = FunctionClauseError { module: fm.clone(), function: ff.clone(), arity: fa, args: fg.clone() };
-        // triggers of the recorded defects: an absent module/function comes back as Some("nil"), a prefixed module loses the prefix
-        let nil_trigger = fm.is_none() || ff.is_none();
-        let pre_trigger = fm.as_deref().is_some_and(|m| m.starts_with("Elixir."));
-        let class = if nil_trigger {
-            Some("kf-c20-exception-none-becomes-nil")
-        } else if pre_trigger {
-            Some("kf-c20-exception-module-prefix")
-        } else {
-            None
-        };
         wrapper_case(
             ctx, "fncl",
             &format!("fncl {} {} {} {}", opt_hex(&fe.module), opt_hex(&fe.function), fe.arity.map(|a| format!("={}", a)).unwrap_or_else(|| "-".to_string()), opt_term(&fe.args)),
@@ -787,7 +731,7 @@ fn wrappers(ctx: &mut Ctx) {
                     args: match &x.args { Some(t) => Some(wire(t)?), None => None },
                 })
             },
-            class, class,
+            None, None,
         );
         // hostile exception terms
         let h = mutate(&mut ctx.rng, &ue.to_term());
@@ -806,7 +750,7 @@ fn wrappers(ctx: &mut Ctx) {
         let fe = FunctionClauseError::empty();
         wrapper_case(
             ctx, "fncl", "fncl - - - -", &fe, &|x: &FunctionClauseError| x.to_term(), &FunctionClauseError::from_term, &show_fncl,
-            &|x: &FunctionClauseError| Some(x.clone()), Some("kf-c20-exception-none-becomes-nil"), Some("kf-c20-exception-none-becomes-nil"),
+            &|x: &FunctionClauseError| Some(x.clone()), None, None,
         );
     }
 }
